@@ -188,6 +188,8 @@ class Gen:
             spec["kind"] = "coro"
         else:
             spec["kind"] = "fiber"
+            # how the body declares the parameter that receives the first resume value
+            spec["params"] = r.choice(["x", "x", "opt", "opt2", "var"])
             if fid == 0:
                 if self.ev:
                     m = r.choice(["tdy5678", "edy01234567r", "tdyr567"])
@@ -394,7 +396,8 @@ class C05(Driver):
                 continue
             name = "bT" if fid < 0 else "b%d" % fid
             if kind == "fiber":
-                head = "(defn %s [x] (sim/ev :start %d -1 x)" % (name, fid)
+                ps = {"x": "[x]", "opt": "[&opt x]", "opt2": "[&opt x y]", "var": "[& xs] (def x (get xs 0))"}[spec.get("params", "x")]
+                head = "(defn %s %s (sim/ev :start %d -1 x)" % (name, ps, fid)
             else:
                 head = "(defn %s []" % name
             L.append(head)
